@@ -46,6 +46,9 @@ Definition vshape (ty : dtype) (v : value) : Prop :=
   | _, _ => False
   end.
 
+Lemma raw_type_vshape id ty v : vshape ty v -> raw_type (TElem id v) (Some ty) = Some ty.
+Proof. destruct ty, v; cbn [vshape]; intros H; try contradiction H; reflexivity. Qed.
+
 Lemma payload_len_small ty v : vshape ty v -> ty = DUInt \/ ty = DSInt \/ ty = DFloat -> N.of_nat (length (payload_of v)) <= 8.
 Proof.
   intros Hs Ht. destruct ty, v; cbn in Hs; try contradiction; try (destruct Ht as [Ht|[Ht|Ht]]; discriminate Ht); cbn [payload_of]; rewrite be_bytes_length.
@@ -179,8 +182,8 @@ Qed.
 
 Lemma end_step sp st id : get_type sp id = Some DMaster -> buffer_tag sp (TEnd id) o_default st = end_tag st id.
 Proof.
-  intros Hty. rewrite buffer_tag_eq. cbn [tag_id o_default o_unknown is_master_tag negb andb]. rewrite Hty. cbn [is_master_ty andb negb].
-  unfold should_validate. cbn [tag_id is_end negb]. rewrite Hty. cbn [andb]. unfold buffer_act. cbn [o_unknown o_default tag_id]. rewrite Hty. reflexivity.
+  intros Hty. rewrite buffer_tag_eq; raw_simpl. cbn [tag_id o_default o_unknown is_master_tag negb andb]. rewrite Hty. cbn [is_master_ty andb negb].
+  unfold should_validate; raw_simpl. cbn [tag_id is_end negb]. rewrite Hty. cbn [andb]. unfold buffer_act; raw_simpl. cbn [o_unknown o_default tag_id]. rewrite Hty. reflexivity.
 Qed.
 
 Lemma write_tree sp d : forall t, Wtree sp d t.
@@ -191,13 +194,13 @@ Proof.
     assert (Hsl : (1 <= sl <= 8)%nat) by (destruct Hf; assumption).
     assert (Hb : buffer_tag sp (TElem id v) (wopt d sl) st =
                  (append (append st (id_bytes id)) (venc sl (N.of_nat (length (payload_of v))) ++ payload_of v), WOk)).
-    { rewrite buffer_tag_eq. cbn [tag_id is_master_tag negb]. rewrite Hty.
+    { assert (Hty2 : raw_type (TElem id v) (get_type sp id) = Some ty) by (rewrite Hty; apply raw_type_vshape, Hshape). rewrite buffer_tag_eq; raw_simpl. cbn [tag_id is_master_tag negb]. rewrite Hty2.
       assert (Hu : o_unknown (wopt d sl) = false) by (destruct d; reflexivity). rewrite Hu. cbn [andb].
       assert (Hm : is_master_ty (Some ty) = false) by (destruct ty; try reflexivity; contradiction Hnm; reflexivity). rewrite Hm. cbn [andb].
-      unfold should_validate. cbn [tag_id]. rewrite Hty.
+      unfold should_validate; raw_simpl. cbn [tag_id]. rewrite Hty2.
       assert (Hv : match ty with DMaster => negb (is_end (TElem id v)) | _ => true end = true) by (destruct ty; reflexivity). rewrite Hv.
       rewrite (validate_chain sp id (w_open st) ids Hpath Hi). cbn [negb andb].
-      unfold buffer_act. rewrite Hu. cbn [tag_id]. rewrite Hty, (size_len_of_wopt d sl Hsl).
+      unfold buffer_act; raw_simpl. rewrite Hu. cbn [tag_id]. rewrite Hty2, (size_len_of_wopt d sl Hsl).
       destruct ty; try (contradiction Hnm; reflexivity); apply write_leaf; assumption. }
     destruct (write_step sp st _ _ _ Hb Hs) as [st' [Hstep [Ho [Hsc [Him [Hk Hu]]]]]].
     cbn [append set_buf w_open w_buf] in Ho, Him, Hk, Hu.
@@ -211,10 +214,10 @@ Proof.
     + (* known size: the children are held back, the header is inserted in front of them at the End *)
       pose proof (Hsz sl eq_refl) as Hf. assert (Hsl : (1 <= sl <= 8)%nat) by (destruct Hf; assumption).
       assert (Hb : buffer_tag sp (TStart id) (wopt d sl) st = (start_tag st id (wsl d sl), WOk)).
-      { rewrite buffer_tag_eq. cbn [tag_id is_master_tag negb]. rewrite Hty.
+      { rewrite buffer_tag_eq; raw_simpl. cbn [tag_id is_master_tag negb]. rewrite Hty.
         assert (Hu : o_unknown (wopt d sl) = false) by (destruct d; reflexivity). rewrite Hu. cbn [andb is_master_ty].
-        unfold should_validate. cbn [tag_id is_end negb]. rewrite Hty, Hval. cbn [negb andb].
-        unfold buffer_act. rewrite Hu. cbn [tag_id]. rewrite Hty, (size_len_of_wopt d sl Hsl). reflexivity. }
+        unfold should_validate; raw_simpl. cbn [tag_id is_end negb]. rewrite Hty, Hval. cbn [negb andb].
+        unfold buffer_act; raw_simpl. rewrite Hu. cbn [tag_id]. rewrite Hty, (size_len_of_wopt d sl Hsl). reflexivity. }
       destruct (write_step sp st _ _ _ Hb Hs) as [st1 [Hstep1 [Ho1 [Hsc1 [Him1 [Hk1 _]]]]]].
       cbn [start_tag set_open w_open w_buf] in Ho1, Him1, Hk1.
       assert (Hkn1 : has_known (w_open st1) = true) by (rewrite Ho1; reflexivity).
@@ -242,9 +245,9 @@ Proof.
       split; [intros Hkn; destruct (Hk3 Hkn) as [Hd3 _]; rewrite Hd3, Hd2, Hd1; reflexivity|exact Hu3].
     + (* unknown size: the header goes out at once *)
       assert (Hb : buffer_tag sp (TStart id) opts_unknown st = (start_unknown_size_tag st id, WOk)).
-      { rewrite buffer_tag_eq. cbn [tag_id is_master_tag negb opts_unknown o_unknown]. rewrite Hty. cbn [andb is_master_ty negb].
-        unfold should_validate. cbn [tag_id is_end negb]. rewrite Hty, Hval. cbn [negb andb].
-        unfold buffer_act. cbn [o_unknown opts_unknown]. reflexivity. }
+      { rewrite buffer_tag_eq; raw_simpl. cbn [tag_id is_master_tag negb opts_unknown o_unknown]. rewrite Hty. cbn [andb is_master_ty negb].
+        unfold should_validate; raw_simpl. cbn [tag_id is_end negb]. rewrite Hty, Hval. cbn [negb andb].
+        unfold buffer_act; raw_simpl. cbn [o_unknown opts_unknown]. reflexivity. }
       destruct (write_step sp st _ _ _ Hb Hs) as [st1 [Hstep1 [Ho1 [Hsc1 [Him1 [Hk1 Hu1]]]]]].
       cbn [start_unknown_size_tag set_open set_buf w_open w_buf] in Ho1, Him1, Hk1, Hu1.
       assert (Hkn1 : has_known (w_open st1) = has_known (w_open st)) by (rewrite Ho1; reflexivity).
